@@ -172,7 +172,13 @@ def alloc_replay(ctx):
 
 
 def run(ctx):
-    rp = vlib.compile_harness(vlib.VERIF + "/harness/generator_replay.cpp", "generator_replay", sanitize=not ctx.quick)
+    rp = vlib.compile_harness(vlib.VERIF + "/harness/generator_replay.cpp", "generator_replay", sanitize=not ctx.quick,
+                              fallback_defines=["GEN_NO_PRIVATE"])
+    nopriv = vlib.compile_harness.last_fallback
+    if nopriv:
+        ctx.assume("generator replay built WITHOUT the probes of the private hand-over record (the record's representation "
+                   "changed and the full harness no longer compiles): public observations only")
+    pj = (lambda st: dict(proj(st), pr={})) if nopriv else proj
     q = ctx.quick
     S3 = '{"sync", "coawait", "future"}'
     pay_thorough = {"BodyKinds": PAYK, "EarlyDestroy": "FALSE", "MaxAfterEnd": 0}
@@ -209,7 +215,7 @@ def run(ctx):
 
         def hdr(k, st0, witharg=witharg, modes=modes):
             return {"witharg": witharg, "modes": modes}
-        replay(ctx, "Generator", "Generator", cfg, tag, rp, proj, header_fn=hdr, merge_re=MERGE,
+        replay(ctx, "Generator", "Generator", cfg, tag, rp, pj, header_fn=hdr, merge_re=MERGE,
                must_take=must, constants=consts or None, max_paths=cap, replay_timeout=3000, tlc_kw={"workers": 4},
                key_fn=key_fn)
     # self-test of the specification: with it++ modelled as it was before 97856c3 (moving the item out) TLC must report the
